@@ -9,16 +9,19 @@ LEVEL = "model_checking"
 
 
 class FakeTask:
-    def __init__(self, name):
-        self.fullname = name
+    def __init__(self, namespace, name):
+        self.namespace = namespace
+        self.name = name
+        self.fullname = f"{namespace}.{name}"
         self.script = False
 
 
 class FakeJob:
     def __init__(self, jid, descr):
         self.id = jid
-        self.task = FakeTask(f"ns.task{descr}")
-        self._opts = {"memory": descr}
+        # description 0 and 1: two tasks with the SAME short name in different namespaces and equal options; 2: task 0 with other options
+        self.task = FakeTask("other" if descr == 1 else "ns", "task")
+        self._opts = {"memory": 2 if descr == 2 else 0}
 
     def get_options(self):
         return self._opts
@@ -36,6 +39,7 @@ for mn, mx in ((2, 2), (2, 3), (1, 2)):
         [[0], [1]],              # two adders, two descriptions
         [[0, 0, 0]],             # more than max for (2,2): remainder path
         [[0, 1], [0]],
+        [[0, 2]],                # same task, other options
     ):
         CASES.append({"min": mn, "max": mx, "plan": plan})
 # a job of the same description is added WHILE the monitor hands off an over-sized stale group (remainder path with a concurrent add)
@@ -113,8 +117,8 @@ def scenario(case, prefix):
         if dup:
             viol.append(("job-submitted-twice", f"jobs {sorted(dup)} handed off more than once; batches {batches}"))
         for b in batches:
-            if len({j.task.fullname for j in b}) > 1:
-                viol.append(("mixed-batch", f"batch {b} mixes tasks"))
+            if len({(j.task.fullname, repr(sorted(j.get_options().items()))) for j in b}) > 1:
+                viol.append(("mixed-batch", f"batch {b} mixes tasks or options: {[(j.task.fullname, j.get_options()) for j in b]}"))
             if len(b) > case["max"] or (len(b) != 1 and len(b) < case["min"]):
                 viol.append(("batch-size", f"batch {b} has size {len(b)} with min {case['min']} max {case['max']}"))
         if "num_pending" in res and res["num_pending"] != res["left"]:
@@ -182,7 +186,7 @@ def run(ctx):
         "job in exactly one batch, batches homogeneous and of legal size, num_pending equals the jobs not yet handed off, no deadlock",
         "samples": [CASES[0], CASES[5]],
     }, "assumptions": ["CPython bytecode interleaving (GIL) is the memory model; 'randomized stress' of the property text is sampling and not part of this check",
-                       "jobs are light-weight stand-ins exposing task.fullname, task.script and get_options()"]}
+                       "jobs are light-weight stand-ins exposing task.fullname / name / namespace, task.script and get_options()"]}
 
 
 def replay(ctx, case):
